@@ -56,12 +56,12 @@ def r10_1(ctx):
             for c, e in p["phases"]:
                 if c == "perform":
                     oa = e.args.get("only_auto_task", e.args.get(1))
-                    flag_conds = [x for x in p["trace"] if isinstance(x, Cond) and "perform_auto_task_while_absence_time" in x.text and x.truth]
+                    flag_conds = [x for x in p["trace"] if isinstance(x, Cond) and x.establishes("perform_auto_task_while_absence_time") is True]
                     if not (isinstance(oa, Const) and oa.v is True):
                         ctx.violation(construct(f, "perform-all-on-absence"), e.loc, "on an absence step tasks are performed without only_auto_task=True")
                     if not flag_conds:
                         ctx.violation(construct(f, "perform-without-flag"), e.loc, "on an absence step automatic tasks are performed although perform_auto_task_while_absence_time is not tested")
-            has_flag_true = any(isinstance(x, Cond) and "perform_auto_task_while_absence_time" in x.text and x.truth for x in p["trace"])
+            has_flag_true = any(isinstance(x, Cond) and x.establishes("perform_auto_task_while_absence_time") is True for x in p["trace"])
             if has_flag_true and "perform" not in names:
                 ctx.violation(construct(f, "auto-not-performed"), f.loc(loop), "perform_auto_task_while_absence_time is set but automatic tasks are not performed on absence steps")
         else:
